@@ -23,7 +23,7 @@ type C18Case struct {
 }
 
 func GenC18(t *rapid.T) *C18Case {
-	c := &C18Case{Class: []string{"exact", "general", "fullrange", "intfamily"}[pick(t, "class", 30, 30, 15, 25)], Route: drawInt(t, 0, 7, "route")}
+	c := &C18Case{Class: []string{"exact", "general", "fullrange", "intfamily"}[pick(t, "class", 30, 30, 15, 25)], Route: drawInt(t, 0, numListRoutes-1, "route")}
 	n := []int{0, 1, 1, 2, 2, 3, 4, 5, 6, 8, 10, 15, 20, 64, 65, 100}[drawIdx(t, 16, "n")]
 	long := n > 20 // long lists: small magnitudes so that no product leaves the float64 range
 	sign := drawInt(t, 0, 3, "sign") // 0 mixed, 1 all negative, 2 all positive, 3 mixed
@@ -165,7 +165,7 @@ func CheckC18(c *C18Case, st *Stats) error {
 		}
 	}
 	mixture = sawInt && sawFloat
-	l := listByRoute(shape, elems, c.Route%8, len(elems))
+	l := listByRoute(shape, elems, c.Route%numListRoutes, len(elems))
 	before, err := TakeIdentSnap(l)
 	if err != nil {
 		return err
